@@ -128,12 +128,19 @@ class SymStr(str):
     s.cps = list(cps)
     return s
   @staticmethod
-  def fresh(name, n, lo=0, hi=0x10FFFF):
+  def fresh(name, n, lo=0, hi=0x10FFFF, split=True):
+    """n symbolic code points (surrogates excluded).  split: case-split on the UTF-8 length class of
+    each code point at harness level (a shard point), so the encoder's own branches are implied."""
+    from .values import hdecide
     cps = []
     for i in range(n):
       c = fresh_int('%s_cp%d' % (name, i), lo, hi)
       if not isinstance(c, int):
         _E().add(z3.Or(c.e < 0xD800, c.e > 0xDFFF))
+        if split:
+          if not hdecide(c < 0x80):
+            if not hdecide(c < 0x800):
+              hdecide(c < 0x10000)
       elif 0xD800 <= c <= 0xDFFF:
         raise _eng.Infeasible()
       cps.append(c)
@@ -299,13 +306,17 @@ def _bytes_int(bs, width, signed):
   # provenance shortcut: exactly the bytes of one packed integer of the same width/signedness
   prov = _prov()
   p0 = prov.get(bs[0].get_id()) if isinstance(bs[0], z3.ExprRef) else None
-  if p0 is not None and p0[1] == width and p0[2] == 0 and p0[3] == signed:
+  if p0 is not None and p0[1] == width and p0[2] == 0:
     ok = True
     for k, x in enumerate(bs):
       p = prov.get(x.get_id()) if isinstance(x, z3.ExprRef) else None
-      if p is None or not p[0].eq(p0[0]) or p[1] != width or p[2] != k or p[3] != signed:
+      if p is None or not p[0].eq(p0[0]) or p[1] != width or p[2] != k or p[3] != p0[3]:
         ok = False; break
-    if ok: return SymInt(p0[0])
+    if ok:
+      v = p0[0]      # in range for its packing (pack raised struct.error otherwise)
+      if p0[3] == signed: return SymInt(v)
+      if p0[3] and not signed: return SymInt(z3.simplify(v % (1 << (8 * width))))
+      return SymInt(z3.If(v >= (1 << (8 * width - 1)), v - (1 << (8 * width)), v))
   u = None
   for x in bs:
     t = _term(x)
